@@ -1,6 +1,7 @@
 """C08 - joblib.hash is a deterministic, order-insensitive, type-discriminating digest."""
 
 import ast
+import copy
 import symtable
 
 from ..cfg import cfg_of
@@ -242,17 +243,21 @@ def memo(ctx):
     g = cfg_of(f)
     base = [c for c in calls_in(f) if call_name(c) == "Pickler.memoize"]
     ctx.need(base, "Hasher.memoize no longer delegates to Pickler.memoize")
-    tests = [n for n in nodes_of_type(f, ast.If) if isinstance(n.test, ast.Call) and call_name(n.test) == "isinstance" and any(isinstance(s, ast.Return) for s in n.body)]
-    if not tests:
-        ctx.bad(f, "str/bytes are memoised: two equal but distinct string objects hash differently from one shared object", key=HS + "::Hasher.memoize::str/bytes guard")
-        return
-    t = tests[0]
-    tys = t.test.args[1]
-    names = {dotted(e) for e in (tys.elts if isinstance(tys, ast.Tuple) else [tys])}
-    ctx.check({"str", "bytes"} <= names, t, "memoisation is skipped for both str and bytes", "memoisation guard only covers %s" % sorted(names))
-    ctx.check(dotted(t.test.args[0]) == f.args.args[1].arg, t, "the guard tests the object being memoised")
+    # shape-independent: the parent memoize is reached only under the fact `isinstance(obj, (bytes, str))` = False (guard
+    # clause with return, or the call wrapped in the negated test - the same function)
+    objp = f.args.args[1].arg
     for c in base:
-        ctx.check(g.every_path_to(g.nodes_of(c), g.nodes_of(t)), c, "the guard precedes Pickler.memoize")
+        facts = [(t_, p_) for (_, t_, p_) in g.atoms_at(g.nodes_of(c)) if isinstance(t_, ast.Call) and call_name(t_) == "isinstance" and len(t_.args) == 2]
+        guards = [(t_, p_) for (t_, p_) in facts if not p_]
+        if not guards:
+            ctx.bad(c, "str/bytes are memoised: two equal but distinct string objects hash differently from one shared object", key=HS + "::Hasher.memoize::str/bytes guard")
+            continue
+        t_ = guards[0][0]
+        tys = t_.args[1]
+        names = {dotted(e) for e in (tys.elts if isinstance(tys, ast.Tuple) else [tys])}
+        ctx.check({"str", "bytes"} <= names, c, "memoisation is skipped for both str and bytes", "memoisation guard only covers %s" % sorted(names))
+        ctx.check(dotted(t_.args[0]) == objp, c, "the guard tests the object being memoised")
+        ctx.ok(c, "Pickler.memoize is reached only for objects that are not str/bytes")
 
 
 def proto(ctx):
@@ -268,7 +273,8 @@ def proto(ctx):
             v = d[0].value if len(d) == 1 else p
         ctx.check(isinstance(v, ast.Constant) and isinstance(v.value, int), c, "the pickle protocol is the integer literal %s (not DEFAULT/HIGHEST_PROTOCOL, which vary with the interpreter)" % unparse(v),
                   "the pickle protocol is %s: digests change with the Python version" % (unparse(v) if v is not None else "the interpreter default"))
-        ctx.check(len(c.args) >= 2 and dotted(c.args[1]) == "self.stream", c, "the pickler writes into the hasher's own stream")
+        own = len(c.args) >= 2 and (dotted(c.args[1]) == "self.stream" or (isinstance(c.args[1], ast.Name) and any(isinstance(a_.value, ast.Name) and a_.value.id == c.args[1].id for a_ in assigns_to(f, "self.stream"))))
+        ctx.check(own, c, "the pickler writes into the hasher's own stream")
     hh = assigns_to(f, "self._hash")
     ctx.check(bool(hh) and isinstance(hh[0].value, ast.Call) and call_name(hh[0].value) == "hashlib.new" and dotted(hh[0].value.args[0]) == f.args.args[1].arg, hh[0] if hh else f, "digest object = hashlib.new(hash_name)")
     h = ctx.repo.func(HS, "Hasher.hash")
@@ -276,8 +282,16 @@ def proto(ctx):
     dump = [c for c in calls_in(h) if call_name(c) == "self.dump"]
     upd = [c for c in calls_in(h) if call_name(c) == "self._hash.update"]
     ctx.check(bool(dump) and bool(upd) and g.every_path_to(g.nodes_of_all(upd), g.nodes_of_all(dump)), upd[0] if upd else h, "the whole pickled stream is fed to the digest after dumping")
-    gv = [a for a in nodes_of_type(h, ast.Assign) if isinstance(a.value, ast.Call) and call_name(a.value) == "self.stream.getvalue"]
-    ctx.check(bool(gv) and upd and dotted(upd[0].args[0]) == gv[0].targets[0].id, gv[0] if gv else h, "digest input is stream.getvalue() (no truncation)")
+    def _is_stream(e):
+        if dotted(e) == "self.stream":
+            return True
+        if isinstance(e, ast.Name):
+            d_ = [a for a in nodes_of_type(h, ast.Assign) if e.id in stores_to(a)]
+            return len(d_) == 1 and dotted(d_[0].value) == "self.stream"
+        return False
+    gv = [a for a in nodes_of_type(h, ast.Assign) if isinstance(a.value, ast.Call) and isinstance(a.value.func, ast.Attribute) and a.value.func.attr == "getvalue" and _is_stream(a.value.func.value)]
+    direct = bool(upd) and isinstance(upd[0].args[0], ast.Call) and isinstance(upd[0].args[0].func, ast.Attribute) and upd[0].args[0].func.attr == "getvalue" and _is_stream(upd[0].args[0].func.value)
+    ctx.check(direct or (bool(gv) and upd and dotted(upd[0].args[0]) == gv[0].targets[0].id), gv[0] if gv else h, "digest input is stream.getvalue() (no truncation)")
     rd = [r for r in nodes_of_type(h, ast.Return) if isinstance(r.value, ast.Call) and call_name(r.value) == "self._hash.hexdigest"]
     ctx.check(bool(rd), h, "the hex digest is returned", "Hasher.hash does not return the hex digest")
     for r in rd:
@@ -336,11 +350,31 @@ def no_collapse(ctx):
             ctx.bad(f, "a method whose receiver is %s gets %d proxies (%s): methods of different receivers share one digest, or the method is pickled by reference" % (kind, len(hit), [unparse(a.value) for a in hit]),
                     key=HS + "::Hasher.save::proxy for receiver " + kind)
             continue
-        args_ = [unparse(x) for x in hit[0].value.args]
+        # compared after expanding the single-assignment locals `inst` / `cls` (so `cls`, `inst.__class__` and
+        # `obj.__self__.__class__` are one spelling)
+        def _expand(e):
+            e = ast.parse(ast.unparse(e), mode="eval").body
+            for _ in range(3):
+                for n_ in ast.walk(e):
+                    for fld, val in ast.iter_fields(n_):
+                        if isinstance(val, ast.Name) and val.id in ("inst", "cls"):
+                            dd = [a for a in nodes_of_type(f, ast.Assign) if val.id in stores_to(a)]
+                            if len(dd) == 1:
+                                setattr(n_, fld, ast.parse(ast.unparse(dd[0].value), mode="eval").body)
+                if isinstance(e, ast.Name) and e.id in ("inst", "cls"):
+                    dd = [a for a in nodes_of_type(f, ast.Assign) if e.id in stores_to(a)]
+                    if len(dd) == 1:
+                        e = ast.parse(ast.unparse(dd[0].value), mode="eval").body
+            return str(unparse(e))
+        subst = {"inst": obj_ + ".__self__", "cls": obj_ + ".__self__.__class__", "inst.__name__": obj_ + ".__self__.__name__"}
+        args_ = [_expand(x) for x in hit[0].value.args]
+        want = [subst.get(w, w) for w in want]
         ctx.check(args_ == want, hit[0], good, "a method whose receiver is %s is hashed as _MyHash(%s): same-named methods of different receivers share one digest" % (kind, ", ".join(args_)))
     for nm, want in (("inst", obj_ + ".__self__"), ("cls", obj_ + ".__self__.__class__")):
         d_ = [a for a in nodes_of_type(f, ast.Assign) if nm in stores_to(a)]
-        ctx.check(bool(d_) and all(unparse(a.value) == want for a in d_), d_[0] if d_ else f, "%s = %s" % (nm, want), "%s is computed as %s" % (nm, [unparse(a.value) for a in d_]))
+        if not d_ and nm == "cls":
+            continue   # inlined: the proxy arguments were compared in expanded form above
+        ctx.check(bool(d_) and all(unparse(a.value) in (want, want.replace(obj_ + ".__self__", "inst")) for a in d_), d_[0] if d_ else f, "%s = %s" % (nm, want), "%s is computed as %s" % (nm, [unparse(a.value) for a in d_]))
     fn_defs = [a for a in nodes_of_type(f, ast.Assign) if "func_name" in stores_to(a)]
     ctx.check(len(fn_defs) >= 1 and all(unparse(a.value) in (obj_ + ".__func__.__name__", obj_ + ".__name__") for a in fn_defs), fn_defs[0] if fn_defs else f, "func_name is the method's own name")
     base = [c for c in calls_in(f) if call_name(c) == "Pickler.save"]
@@ -388,6 +422,15 @@ def feed_total(ctx):
                 for r in nodes_of_type(m, ast.Return):
                     if any(isinstance(t, ast.Call) and call_name(t) == "isinstance" and pol for (_, t, pol) in g.conditions_at(g.nodes_of(r))):
                         exempt.update(g.nodes_of(r))
+                # the same exemption when the parent call is wrapped in the negated test: the false edge of
+                # `if not isinstance(obj, (bytes, str))` is the str/bytes path
+                for n_ in g.nodes:
+                    if n_.kind == "test" and isinstance(n_.ast, ast.If):
+                        t_, pol_ = n_.ast.test, True
+                        while isinstance(t_, ast.UnaryOp) and isinstance(t_.op, ast.Not):
+                            t_, pol_ = t_.operand, not pol_
+                        if isinstance(t_, ast.Call) and call_name(t_) == "isinstance":
+                            exempt.update(g.label_succ(n_.id, "T" if pol_ else "F"))
             n += 1
             ok = bool(feeds) and g.every_path_from([g.entry], set(g.nodes_of_all(feeds)) | exempt, None, skip_exc=False)
             ctx.check(ok, m, "%s.%s: every normal path feeds the parent pickler / the digest" % (cname, m.name),
@@ -491,7 +534,11 @@ def pure(ctx):
     cls = mod.classes.get("Hasher")
     init = ctx.res.method(HS, cls, "__init__")
     st = assigns_to(init, "self.stream")
-    ctx.check(bool(st) and unparse(st[0].value) == "io.BytesIO()", st[0] if st else init, "every Hasher starts from an empty stream")
+    sv = st[0].value if st else None
+    if isinstance(sv, ast.Name):
+        d_ = [a for a in nodes_of_type(init, ast.Assign) if sv.id in stores_to(a)]
+        sv = d_[0].value if len(d_) == 1 else sv
+    ctx.check(sv is not None and unparse(sv) == "io.BytesIO()", st[0] if st else init, "every Hasher starts from an empty stream")
     top = ctx.repo.func(HS, "hash")
     hc = [c for c in calls_in(top) if call_name(c) in ("Hasher", "NumpyHasher")]
     ctx.check(bool(hc), top, "every call of hash() builds a fresh Hasher")
